@@ -96,8 +96,16 @@ func stickyGuard(w *World, fn *ssa.Function, fErr *types.Var) bool {
 	b := fn.Blocks[0]
 	for _, in := range b.Instrs {
 		switch x := in.(type) {
-		case *ssa.FieldAddr, *ssa.UnOp, *ssa.BinOp, *ssa.DebugRef:
+		case *ssa.FieldAddr, *ssa.UnOp, *ssa.BinOp, *ssa.DebugRef, *ssa.Alloc:
 			_ = x
+		case *ssa.Store:
+			// a parameter captured by a function literal is spilled to a local before anything else happens
+			if _, isP := x.Val.(*ssa.Parameter); !isP {
+				return false
+			}
+			if _, isL := x.Addr.(*ssa.Alloc); !isL {
+				return false
+			}
 		case *ssa.If:
 			c, truth, _ := edgeAssertion(b, 0)
 			y, eq, ok := nilCompare(c)
